@@ -1,7 +1,10 @@
 package props
 
 import (
+	"github.com/AdguardTeam/urlfilter/filterlist"
 	"net/netip"
+	"os"
+	"path/filepath"
 	"slices"
 	"strings"
 
@@ -213,7 +216,12 @@ func c18Perturb(n string) []string {
 
 func c18Run(c *core.Ctx, idx int) {
 	var lines []c18Line
-	for k := 0; k < 12; k++ {
+	nLines := 12
+	if c.Rng.Intn(10) == 0 {
+		// A hosts file of several read blocks, backed by a file.
+		nLines = 150
+	}
+	for k := 0; k < nLines; k++ {
 		l := c18MakeLine(c)
 		lines = append(lines, l)
 		var r rules.Rule
@@ -263,7 +271,23 @@ func c18Run(c *core.Ctx, idx int) {
 		texts = append([]string{"\ufeff! saved with a byte order mark"}, texts...)
 		c.Event("lists_starting_with_a_byte_order_mark", 1)
 	}
-	eng := urlfilter.NewDNSEngine(util.StorageSplit(c.Rng, texts))
+	storage := util.StorageSplit(c.Rng, texts)
+	if nLines > 12 {
+		if dir, derr := os.MkdirTemp(filepath.Join(c.Env.VerifDir, ".work"), "c18f."); derr == nil {
+			defer os.RemoveAll(dir)
+			fn := filepath.Join(dir, "hosts.txt")
+			if os.WriteFile(fn, []byte(util.LinesEOL(texts, []string{"\n", "\r\n"}[c.Rng.Intn(2)])), 0o644) == nil {
+				if fl, ferr := filterlist.NewFileRuleList(0, fn, false); ferr == nil {
+					if fs, serr := filterlist.NewRuleStorage([]filterlist.RuleList{fl}); serr == nil {
+						storage = fs
+						defer fs.Close()
+						c.Event("file_backed_hosts_files_of_several_blocks", 1)
+					}
+				}
+			}
+		}
+	}
+	eng := urlfilter.NewDNSEngine(storage)
 	for _, l := range lines {
 		if len(c18KnownTag(strings.TrimSpace(l.Text))) > 0 {
 			continue
